@@ -11,6 +11,7 @@ emulator implements."
 import VaxisModel.Props.C12Any
 import VaxisModel.Props.C12Timers
 import VaxisModel.Props.C12StartAny
+import VaxisModel.Props.C12Bridge
 import VaxisModel.Lemmas.RenderLink
 
 namespace VaxisModel.Props.C12Main
@@ -74,7 +75,16 @@ theorem hexDec_ok : Lemmas.RenderLink.hexDec "20" = [32] ∧ Lemmas.RenderLink.h
     * `Draw` into a host window of that size does not resize, makes exactly one `SetCell` per glyph
       cell of the application's screen, each carrying a cell that shows it, and shows the
       application's cursor in a focused window.
-    No hypothesis about hyperlink parameters any more (F112b repaired: /repo 3525279). -/
+    No hypothesis about hyperlink parameters any more (F112b repaired: /repo 3525279).
+
+    (4) *Against ONE reference terminal.* In the situation of (3), at any size, with `Spec.Term` — the
+    reference terminal of C06, which the emulator is proved to refine — in a state related to the same
+    display (`Rel`; `C12Bridge.rel_start` / `rel_resized` give one at start-up and after a resize): for
+    every list of admissible frames, the first a refresh, the emulator shows the last (hence every) frame
+    AND `Spec.Term`, fed the very same renderer tokens, is deterministic on them (`runExact`) and ends
+    related (`Rel`: every cell equal up to its own visual equality, cursor, pen, hyperlink, visibility,
+    shape) to the display that shows the application's screen and cursor and that the emulator simulates
+    (C01 + the C05/C06 builder's bridge `display_refines_term` + the C12 simulation). -/
 theorem c12_end_to_end :
     -- (1a)
     (∀ (colorterm : Bool) (hostBg : Option (Nat × Nat × Nat)) (e : Emu) (p : Params), 8 ≤ p.qcap →
@@ -109,8 +119,22 @@ theorem c12_end_to_end :
           draw true Model.Emu.Fixes.current e' sg.cols sg.rows true =
             .ok ({ e' with hasVx := true }, per.flatten, shownCursor true e' true) ∧
           per.length = sg.rows ∧
-          shownCursor true e' true = (if fi.cursor.visible then some (fi.cursor.col, fi.cursor.row) else none)) := by
-  refine ⟨?_, ?_, ?_, ?_⟩
+          shownCursor true e' true = (if fi.cursor.visible then some (fi.cursor.col, fi.cursor.row) else none)) ∧
+    -- (4)
+    (∀ (caps : Model.Render.Caps) [CapsOkU caps] (dec : String → G) (cw : String → Nat), cw "20" = 1 → dec "20" = [32] →
+      dec "" = [] → LpOk dec →
+      ∀ (rows cols : Nat) (s : HState) (e : Emu), LinkedP dec cw s e rows cols →
+      ∀ (t : Spec.Term.T), Lemmas.C06Bridge.Rel dec s.t t →
+      ∀ (a : FrameIn) (rest : List FrameIn), a.refresh = true →
+        (∀ fi ∈ a :: rest, (C01Clip.FrameInOkC cw caps rows cols fi ∧ C12.EmuFrameOk dec cw fi) ∧ UlOk caps fi) →
+        ∀ (fi : FrameIn), (a :: rest).getLast? = some fi →
+        ∃ (e' : Emu) (t' : Spec.Term.T) (d : Spec.Display.Term),
+          runFramesCK caps dec cw s e (a :: rest) = .ok e' ∧ ShowsCK caps dec cw fi e' ∧
+          Lemmas.C06Bridge.runExact t ((C12Bridge.allToks caps cw s (a :: rest)).filterMap (Lemmas.C06Bridge.tokT dec cw)) = some t' ∧
+          Lemmas.C06Bridge.Rel dec d t' ∧
+          d.grid = Expected.expectedC cw caps fi.next ∧ C01.CursorAs d fi.cursor ∧
+          Lemmas.C12Sim.DSim dec d e' rows cols) := by
+  refine ⟨?_, ?_, ?_, ?_, ?_⟩
   · intro colorterm hostBg e p hq hk hcap o henv hct ls st hin hnt hrun hquiet
     obtain ⟨h1, _, h3, h4⟩ := C12Startup.emu_dialogue_completes_any hostBg e p hq hk hcap o henv ls st hin hnt hrun hquiet
     refine ⟨h1, h3, ?_⟩
@@ -133,5 +157,7 @@ theorem c12_end_to_end :
     rw [runSegsM_eq_adj merges cat dec cw segs s e (fun sg hsg fi hfi =>
       ⟨fun r hr c hc => (((hok sg hsg).1.2.2 fi hfi).1.2.2.1 r hr c hc).1, hnm sg hsg fi hfi⟩)]
     exact hr
+  · intro caps _ dec cw hsp hd hemp hlp rows cols s e hl t ht a rest ha hok fi hlast
+    exact C12Bridge.emu_and_term_show (caps := caps) dec cw hsp hd hemp hlp rows cols s e hl t ht a rest ha hok fi hlast
 
 end VaxisModel.Props.C12Main
